@@ -80,7 +80,9 @@ def selected(spec, total):
 
 
 def is_fault(case):
-    return bool(case.get("reject")) or any(k.get("fail") for k in case["seg"])
+    # (segments that leave the cluster and re-enter it - two gathers in series - are run with the bounded waits of the fault cases:
+    #  a pipeline that stops between them is a failure, not a harness timeout)
+    return bool(case.get("reject")) or any(k.get("fail") or k["k"] == "regather" for k in case["seg"])
 
 
 _stuck_seen = []        # once a hang has been observed (STUCK_WAIT), later fault cases wait less
@@ -225,10 +227,12 @@ def build(case, dask):
                 kw["fail"] = (k["fail"]["mod"], k["fail"]["rem"])
 
             def fun(table, plain, name=None, dsalt=0):
-                """(function, kwargs) in the case's style: module-level function + keyword arguments, or a closure"""
+                """(function, kwargs) in the case's style: module-level function + keyword arguments, or a closure; in "named" cases the
+                node also gets a stream_name= (a stream option, never an argument of the user function)"""
+                nm = {"stream_name": "n%d%s" % (i, "b" if dsalt else "")} if case.get("named") else {}
                 if closure:
-                    return task_fn(table, name or kw["fn"], kw["salt"] + dsalt, delays, kw.get("fail")), {}
-                return plain, dict(kw, fn=name or kw["fn"], salt=kw["salt"] + dsalt)
+                    return task_fn(table, name or kw["fn"], kw["salt"] + dsalt, delays, kw.get("fail")), nm
+                return plain, dict(kw, fn=name or kw["fn"], salt=kw["salt"] + dsalt, **nm)
             kind = k["k"]
             if kind == "map":
                 f, a = fun(F1, f1)
@@ -257,6 +261,11 @@ def build(case, dask):
                 f, a = fun(FS, fs)
                 g, b = fun(FS, fs, name=k["g"], dsalt=3)
                 up = up.starmap(f, **a).union(up.starmap(g, **b))
+            elif kind == "regather":
+                # leave the cluster and re-enter it: ... .gather().scatter() ... (locally: nothing)
+                if dask:
+                    up = up.gather().scatter()
+                continue
             elif kind == "buffer":
                 up = up.buffer(k["n"])
                 p.buffers.append(up)
@@ -321,7 +330,9 @@ async def drive(case, dask):
             if fault:
                 await asyncio.wait_for(aw, 3.0 if _stuck_seen else STUCK_WAIT)
             else:
-                await within(aw, what)
+                # no failure involved: a generous bound; a Dask pipeline that does not come back while the local one does is reported
+                # as a failure of the equivalence (check_case), a local pipeline that hangs as a harness error
+                await asyncio.wait_for(aw, 5.0 if _stuck_seen else TIMEOUT)
             return "ok"
         except asyncio.TimeoutError:
             return "stuck"
@@ -331,6 +342,10 @@ async def drive(case, dask):
             if not fault:
                 raise
             return type(e).__name__
+        except Exception as e:      # noqa: BLE001 - an exception nobody injected: judged by comparing the two pipelines
+            if not dask:
+                raise
+            return "raised:" + type(e).__name__
 
     def emit(x, rc):
         """the awaitable of one emit, or the outcome when emit itself raised (local synchronous chain)"""
@@ -371,14 +386,16 @@ async def drive(case, dask):
                 break               # nothing later can get past a pipeline that is stuck
     # quiescence: nothing queued, nothing in flight, for several consecutive bursts of loop turns
     quiet = 0
+    t_q = time.monotonic()
     while quiet < 5 and not stuck:
         for _ in range(10):
             await asyncio.sleep(0)
         busy = (any(b.queue.qsize() for b in p.buffers) or p.inflight["scatter"] or p.inflight["gather"])
         quiet = 0 if busy else quiet + 1
         if busy:
-            if time.monotonic() > deadline:
-                raise common.HarnessError("timeout (%ss) waiting for quiescence; case %r" % (TIMEOUT, case))
+            if time.monotonic() > (t_q + 5.0 if _stuck_seen else deadline):
+                stuck = True        # elements are still in a buffer / in scatter / in gather and nothing moves any more
+                break
             await asyncio.sleep(0.001)
     if stuck and not _stuck_seen:
         _stuck_seen.append(True)
@@ -488,6 +505,8 @@ def gen_case(rng, mode):
             "delays": [rng.choice([0, 0, 1, 2, 3, 5, 8]) for _ in range(rng.choice([3, 4, 5]))]}
     if rng.random() < 0.5:
         case["style"] = "closure"       # user functions are same-named closures without keyword arguments
+    if rng.random() < 0.4:
+        case["named"] = True            # every map / starmap / accumulate node is given a stream_name=
     if n >= 2 and rng.random() < 0.2:
         case["late"] = rng.randint(1, min(3, n - 1))     # the first inputs are emitted before anything is attached below scatter
     return case
@@ -555,6 +574,15 @@ CORPUS = [
     {"mode": "concurrent", "seg": [{"k": "sliding_window", "n": 3, "partial": True}, {"k": "union_map", "f": "neg"}],
      "xs": [9, 1, 5, 1, 0, 3, 0, 7], "salt": 12, "delays": [1, 1, 5]},
     {"mode": "concurrent", "seg": [{"k": "map", "f": "inc"}], "xs": [1, 2, 3, 4, 5, 6], "salt": 3, "delays": [6, 0, 0, 3]},
+    # named nodes: stream_name= is an option of the node, not an argument of the user function
+    {"mode": "await", "named": True, "seg": [{"k": "map", "f": "pair"}, {"k": "starmap", "f": "add*"}, {"k": "accumulate", "f": "add", "start": 0}],
+     "xs": [1, 2, 3], "salt": 0, "delays": [1, 0]},
+    {"mode": "buffer", "named": True, "style": "closure", "seg": [{"k": "zip_map", "f": "inc"}, {"k": "starmap", "f": "rev*"}, {"k": "buffer", "n": 3}],
+     "xs": [4, 5, 6], "salt": 2, "delays": [0, 2]},
+    # two scatter()...gather() stretches in series in one pipeline
+    {"mode": "await", "seg": [{"k": "map", "f": "inc"}, {"k": "regather"}, {"k": "map", "f": "dbl"}], "xs": [1, 2, 3, 4], "salt": 0, "delays": [2, 0]},
+    {"mode": "concurrent", "style": "closure", "seg": [{"k": "accumulate", "f": "add", "start": 0}, {"k": "regather"}, {"k": "partition", "n": 2},
+                                                       {"k": "map", "f": "sum"}], "xs": [1, 2, 3, 4, 5], "salt": 1, "delays": [0, 3]},
     # elements emitted while nothing is attached below scatter reach nobody, and their references are given back
     {"mode": "await", "late": 2, "seg": [{"k": "map", "f": "inc"}], "xs": [1, 2, 3, 4], "salt": 0, "delays": [0]},
     {"mode": "concurrent", "late": 1, "style": "closure", "seg": [{"k": "accumulate", "f": "add", "start": 0}], "xs": [1, 2, 3], "salt": 0, "delays": [2, 0]},
@@ -587,7 +615,7 @@ FAULT_CORPUS = [
 def model_lines(case):
     if is_fault(case):
         return fault_model_lines(case)
-    if any(k["k"] in ("zip_map2", "union_starmap2") for k in case["seg"]):
+    if any(k["k"] in ("zip_map2", "union_starmap2", "regather") for k in case["seg"]):
         return []           # two-branch fan-out kinds: model-free oracle only (Model/Dask.lean has one side branch through one map)
     late = case.get("late", 0)
     return [{"op": "reset", "seg": case["seg"]},
@@ -690,7 +718,10 @@ def check_fault_case(ctx, case, loc, dsk, answers=None):
     if dsk["stuck"]:
         k = len(dsk["outcomes"]) - 1 if case["mode"] != "concurrent" else dsk["outcomes"].index("stuck")
         if not any(failed_l):
-            raise common.HarnessError("Dask pipeline did not come back within %ss with no failure involved; case %r" % (STUCK_WAIT, case))
+            ctx.failure("dask:stuck", "the Dask-backed pipeline stopped: an emit never came back within %ss (outcomes %r) although nothing had failed "
+                        "yet; the local pipeline finished with %r" % (STUCK_WAIT, dsk["outcomes"], loc["outcomes"]), case,
+                        expected=loc["outcomes"], observed=dsk["outcomes"], oracle="the Dask-backed pipeline delivers what the local one delivers")
+            return
         ctx.failure(SIG_STUCK, "after an element failed downstream of gather()/on the cluster the Dask-backed pipeline stopped: the emit "
                     "of input #%d never came back (bounded wait %ss); outcomes %r, the local pipeline finished with %r"
                     % (k, STUCK_WAIT, dsk["outcomes"], loc["outcomes"]), case, expected=loc["outcomes"], observed=dsk["outcomes"],
@@ -723,6 +754,20 @@ def check_fault_case(ctx, case, loc, dsk, answers=None):
 def check_case(ctx, case, answers, loc, dsk):
     if is_fault(case):
         return check_fault_case(ctx, case, loc, dsk, answers)
+    if loc["stuck"]:
+        raise common.HarnessError("the local pipeline did not finish within %ss; case %r" % (TIMEOUT, case))
+    if any(o.startswith("raised:") for o in dsk["outcomes"]):
+        ctx.case(case, nontrivial=True)
+        ctx.failure("dask:emit-raised", "the Dask-backed pipeline raised where the local one delivered: outcomes %r, local results %r"
+                    % (dsk["outcomes"], loc["out"]), case, expected=loc["out"], observed=dsk["outcomes"],
+                    oracle="the Dask-backed pipeline delivers what the local one delivers")
+        return
+    if dsk["stuck"]:
+        ctx.case(case, nontrivial=True)
+        ctx.failure("dask:stuck", "the Dask-backed pipeline stopped: an emit never came back within %ss (outcomes %r) although no task failed and no "
+                    "consumer rejected anything; the local pipeline delivered %r" % (TIMEOUT, dsk["outcomes"], loc["out"]), case,
+                    expected=loc["out"], observed=dsk["out"], oracle="the Dask-backed pipeline delivers what the local one delivers")
+        return
     n = len(case["xs"])
     ctx.count("mode:" + case["mode"])
     for k in case["seg"]:
